@@ -8,6 +8,10 @@ Two families of streams, one oracle:
   into a real `driver.Driver` buffer (`update_samples`) with `post_process_samples()` runs at arbitrary points, i.e.
   the real `SamplePostprocessor` that owns the calculator for the whole race writing into a real
   `InMemoryMetricsStore`; the throughput records of every run are compared with the Lean model `Throughput.driverRun`.
+* executor stream: scripted runner return values (dict / tuple / None; throughput absent, None, 0, 0.0, tiny, huge,
+  negative …) go through the real `execute_single` / `AsyncExecutor` / schedule / `Sampler` on a virtual clock
+  (harness/sim_vloop.py) and from there through the same driver buffer / post-processor / store; the model is fed the
+  RUNNER's results (`Throughput.sampleOf`), so the plumbing in front of the calculator is inside the comparison.
 Returned tuples / records are compared exactly (`float.as_integer_ratio`).  The direct oracle recomputes, with
 `Fraction`s and without any bucket logic, what every emitted value has to be: (sum of the operations of
 all samples fed so far except those sorted after the emitting sample in the current batch, each once) /
@@ -23,7 +27,8 @@ RULE = ("sample streams of 1-3 tasks x 1-4 clients (warm-up then normal samples,
         "Task objects) x 3 cuttings: (a) into calculate() calls on ONE calculator (all at once, one sample per call, random cuts with empty calls), "
         "(b) into worker shipments and post-processing runs of ONE Driver/SamplePostprocessor/metrics store (run at the end only, after every shipment, "
         "random incl. runs with an empty buffer; boundary stream: every placement of one or two runs between two clients' samples) + a final far-future "
-        "flush sample per task that makes the carried state observable; a case is non-trivial when at least one call starts with carried-over samples; "
+        "flush sample per task that makes the carried state observable, (c) scripted runner results (throughput absent/None/0/0.0/-0.0/5e-324/1e300/2^70/"
+        "negative/ordinary, weight and unit present or defaulted) through real execute_single/AsyncExecutor/Sampler into (b); a case is non-trivial when at least one call starts with carried-over samples; "
         "signature = (model branch tags, cutting mode, number of tasks, oracle outcome[, samples after a batch with a 100 % sample])")
 TRUSTED = [
     "IEEE-754 model RallyModel/Dbl.lean for `a - b`, `float(count)` and `count / interval` (validated bit-for-bit against CPython; the floats "
@@ -102,7 +107,7 @@ def build_sample(s, copy):
         -1,
         -1,
         -1,
-        None if s["tput"] is None else num(s["tput"], ai),
+        None if s["tput"] is None else num(s["tput"], ai or s.get("tput_int", False)),
         s["ops"],
         s["unit"],
         num(s["period"], ai),
@@ -187,6 +192,46 @@ class Oracle:
     def stale_run(self):
         return max([st["stale_run"] for st in self.by_task.values()] + [0])
 
+    def judge(self, ci, k, t, j, counted, merged, start, st):
+        """failures (class, what, expected, observed) of tuple `t` read as emitted for merged[j]"""
+        ctx, exact = self.ctx, self.exact
+        a, r, normal, v, u = t
+        out = []
+        P = counted + merged[: j + 1]
+        n = sum(s["ops"] for s in P)
+        iv = max(Fraction(s["abs"]) - start for s in P)
+        if v is None:
+            return [("none-value", f"call {ci} task {k}: calculated throughput is None", None, t)]
+        vf = Fraction(v)
+        if vf < 0:
+            out.append(("negative", f"call {ci} task {k}: negative throughput", ">= 0", v))
+        if u != merged[j]["unit"] + "/s":
+            out.append(("unit", f"call {ci} task {k}: unit is not '<ops unit>/s'", merged[j]["unit"] + "/s", u))
+        if iv <= 0:
+            out.append(("nonpositive-elapsed", f"call {ci} task {k}: value emitted although no positive time has elapsed", None, t))
+            return out
+        want = Fraction(n) / iv
+        if n >= 2 ** 53:
+            # int -> float conversion of the count rounds once more
+            good = abs(vf - want) <= want / 2 ** 50
+        elif exact:
+            good = vf == Fraction(float(want))
+        else:
+            # elapsed time is computed in doubles: |error| <= a few ulp of the largest time involved
+            err = 4 * max(ulp_of(Fraction(s["abs"])) for s in P) + 4 * ulp_of(start)
+            if iv <= 8 * err:
+                ctx.count("oracle:ill-conditioned-skipped")
+                good = True
+            else:
+                lo, hi = Fraction(n) / (iv + err), Fraction(n) / (iv - err)
+                good = lo * (1 - Fraction(1, 2 ** 50)) <= vf <= hi * (1 + Fraction(1, 2 ** 50))
+        if not good:
+            # over-count after a call that started with carried samples and emitted nothing = the defect fixed by d4fc0e7
+            cls = "carried-samples-recounted" if st["stale"] and vf > want else "rate-mismatch"
+            out.append((cls, f"call {ci} task {k}: emitted throughput is not (operations of the samples up to the emitting one, each once) / elapsed",
+                        {"ops": n, "elapsed": fs(iv), "value": fs(Fraction(float(want)))}, {"value": v, "tuple": t}))
+        return out
+
     def step(self, ci, call, outs):
         ctx, exact, fail = self.ctx, self.exact, self.fail
         groups = {}
@@ -232,45 +277,17 @@ class Oracle:
                     fail("unknown-emitter", f"call {ci} task {k}: value attributed to no sample of the call (or out of time order)", None, t)
                     break
                 if len(cand) > 1:
+                    # several samples of the call carry the tuple's time stamps (clients that start a request at the same
+                    # instant): the tuple is right if it is right for one of them
                     ctx.count("oracle:ambiguous-emitter")
-                j = cand[0]
+                st["types"].append(normal)
+                verdicts = [self.judge(ci, k, t, j, counted, merged, start, st) for j in cand]
+                best = next((i for i, vd in enumerate(verdicts) if not vd), 0)
+                j = cand[best]
                 pos = j + 1
                 last_j = j
-                P = counted + merged[: j + 1]
-                n = sum(s["ops"] for s in P)
-                iv = max(Fraction(s["abs"]) - start for s in P)
-                st["types"].append(normal)
-                if v is None:
-                    fail("none-value", f"call {ci} task {k}: calculated throughput is None", None, t)
-                    continue
-                vf = Fraction(v)
-                if vf < 0:
-                    fail("negative", f"call {ci} task {k}: negative throughput", ">= 0", v)
-                if u != merged[j]["unit"] + "/s":
-                    fail("unit", f"call {ci} task {k}: unit is not '<ops unit>/s'", merged[j]["unit"] + "/s", u)
-                if iv <= 0:
-                    fail("nonpositive-elapsed", f"call {ci} task {k}: value emitted although no positive time has elapsed", None, t)
-                    continue
-                want = Fraction(n) / iv
-                if n >= 2 ** 53:
-                    # int -> float conversion of the count rounds once more
-                    good = abs(vf - want) <= want / 2 ** 50
-                elif exact:
-                    good = vf == Fraction(float(want))
-                else:
-                    # elapsed time is computed in doubles: |error| <= a few ulp of the largest time involved
-                    err = 4 * max(ulp_of(Fraction(s["abs"])) for s in P) + 4 * ulp_of(start)
-                    if iv <= 8 * err:
-                        ctx.count("oracle:ill-conditioned-skipped")
-                        good = True
-                    else:
-                        lo, hi = Fraction(n) / (iv + err), Fraction(n) / (iv - err)
-                        good = lo * (1 - Fraction(1, 2 ** 50)) <= vf <= hi * (1 + Fraction(1, 2 ** 50))
-                if not good:
-                    # over-count after a call that started with carried samples and emitted nothing = the defect fixed by d4fc0e7
-                    cls = "carried-samples-recounted" if st["stale"] and vf > want else "rate-mismatch"
-                    fail(cls, f"call {ci} task {k}: emitted throughput is not (operations of the samples up to the emitting one, each once) / elapsed",
-                         {"ops": n, "elapsed": fs(iv), "value": fs(Fraction(float(want)))}, {"value": v, "tuple": t})
+                for cls, what, exp, obs in verdicts[best]:
+                    fail(cls, what, exp, obs)
             # bookkeeping of the reference counting
             if last_j >= 0:
                 st["counted"] = counted + merged[: last_j + 1]
@@ -344,10 +361,13 @@ def gen_task_queues(rng, k, exact, mode, int_times, big_ops):
             if big_ops and rng.random() < 0.3:
                 ops = rng.choice([2 ** 53 + 1, 2 ** 54 + 3, 2 ** 60 + 12345])
             tput = None
+            tput_int = False
             if mode == "pass" or (mode == "mixed" and rng.random() < 0.5):
-                tput = fs(rng.choice([0, 8000, 12.5, 0.1, 1e-3, 123456.789, 3]))
+                spec = gen_tput_value(rng)  # includes the edge values: 0, 0.0, -0.0, smallest / huge doubles, huge int, negative
+                tput = spec["q"]
+                tput_int = spec["kind"] == "int"
             q.append({"task": k, "client": c, "abs": fs(a), "rs": fs(rs), "ts": fs(ts), "period": fs(period), "ops": ops, "unit": unit,
-                      "normal": i >= warm, "tput": tput, "int": int_times, "pc": None})
+                      "normal": i >= warm, "tput": tput, "tput_int": tput_int, "int": int_times, "pc": None})
         # percent_completed is per CLIENT: iteration based ((i+1)/n), time based (elapsed/period, may stop below 100 %),
         # reported by the runner, or None (eternal task); the last sample is bumped to 1.0 when the client completes
         # (iterations exhausted, runner completed, or external completion while other clients are still running)
@@ -679,9 +699,34 @@ def _new_store():
     return cfg, store
 
 
+def _msample(k, o):
+    """model / oracle view of a real Sample object"""
+    from esrally import metrics
+
+    return {"task": k, "abs": fs(o.absolute_time), "rel": fs(o.relative_time), "period": fs(o.time_period), "ops": o.total_ops,
+            "unit": o.total_ops_unit, "normal": o.sample_type == metrics.SampleType.Normal,
+            "tput": None if o.throughput is None else fs(o.throughput)}
+
+
 def run_driver_case(ctx, case):
+    events = []
+    for ei, ev in enumerate(case["events"]):
+        if ev == "pp":
+            events.append("pp")
+            continue
+        objs = [build_sample(smp, case.get("copies", False) and (i + ei) % 2 == 1) for i, smp in enumerate(ev)]
+        triples = []
+        for smp, o in zip(ev, objs):
+            ms = _msample(smp["task"], o)
+            triples.append((o, ms, ms, smp["client"], smp.get("pc")))
+        events.append(triples)
+    _drive(ctx, case, events)
+
+
+def _drive(ctx, case, events):
     """real Driver buffer + real SamplePostprocessor + real InMemoryMetricsStore; the records of every post-processing run
-    are compared with the Lean model (`driverRun`) and judged by the same direct oracle as the calculator streams"""
+    are compared with the Lean model (`driverRun`) and judged by the same direct oracle as the calculator streams.
+    events: "pp" | list of (real Sample, model sample, oracle sample, client id, percent_completed)"""
     from esrally.driver import driver
     from esrally import metrics
 
@@ -702,18 +747,13 @@ def run_driver_case(ctx, case):
     model_events, impl_runs = [], []
     pending_batch = []  # reference semantics of the buffer: everything shipped since the previous run
     ci = 0
-    for ei, ev in enumerate(case["events"]):
+    for ei, ev in enumerate(events):
         if ev != "pp":
-            objs = [build_sample(smp, case.get("copies", False) and (i + ei) % 2 == 1) for i, smp in enumerate(ev)]
-            ms = []
-            for smp, o in zip(ev, objs):
-                names[o.task.name] = smp["task"]
-                ms.append({"task": smp["task"], "abs": fs(o.absolute_time), "rel": fs(o.relative_time), "period": fs(o.time_period), "ops": o.total_ops,
-                           "unit": o.total_ops_unit, "normal": o.sample_type == metrics.SampleType.Normal,
-                           "tput": None if o.throughput is None else fs(o.throughput)})
-            model_events.append(ms)
-            pending_batch += ms
-            d.update_samples(objs)
+            for o, ms, osmp, _c, _pc in ev:
+                names[o.task.name] = ms["task"]
+            model_events.append([t[1] for t in ev])
+            pending_batch += [t[2] for t in ev]
+            d.update_samples([t[0] for t in ev])
             continue
         model_events.append("pp")
         n_spy, n_docs = len(spy), len(store.docs)
@@ -752,7 +792,7 @@ def run_driver_case(ctx, case):
             orc.fail("task-keys", f"run {ci}: records although nothing was shipped since the last run", [], recs[:3])
         pending_batch = []
         ci += 1
-        if orc.stale_run() >= STALE_CAP and ei + 1 < len(case["events"]):
+        if orc.stale_run() >= STALE_CAP and ei + 1 < len(events):
             ctx.count("truncated-after-stale-run")
             break
     m = ctx.model("throughput", "pp_run", {"events": model_events})
@@ -766,27 +806,296 @@ def run_driver_case(ctx, case):
                 break
         else:
             ctx.diff("number of runs", len(m["r"]["runs"]), len(impl_runs))
-    pcs = [smp.get("pc") for ev in case["events"] if ev != "pp" for smp in ev]
     # input class: a task gets real samples in a batch AFTER the batch in which one of its clients reported 100 %
     early_done = False
     done_tasks = set()
     batch_done = set()
-    for ev in case["events"]:
+    nsamples = 0
+    for ev in events:
         if ev == "pp":
             done_tasks |= batch_done
             batch_done = set()
             continue
-        for smp in ev:
-            if smp["task"] in done_tasks and smp["client"] != 99:
+        for _o, ms, _os, client, pc in ev:
+            nsamples += 1
+            if ms["task"] in done_tasks and client != 99:
                 early_done = True
-            if smp.get("pc") is not None and smp["pc"] >= 1.0:
-                batch_done.add(smp["task"])
+            if pc is not None and pc >= 1.0:
+                batch_done.add(ms["task"])
     ctx.count("cut:" + str(case.get("cut")))
     ctx.count("runs", ci)
-    ctx.count("samples", len(pcs))
+    ctx.count("samples", nsamples)
     ctx.count("outcome:" + orc.outcome)
     ctx.count("class:samples-after-a-100%-batch" if early_done else "class:no-samples-after-a-100%-batch")
-    ctx.sig([tags, case.get("cut"), case.get("ntasks"), orc.outcome, early_done], nontrivial="carry" in tags)
+    ctx.sig([tags, case.get("cut"), case.get("ntasks"), orc.outcome, early_done] + list(case.get("sig_extra", [])), nontrivial="carry" in tags or bool(case.get("sig_extra")))
+
+
+# ---------------------------------------------------------------------------------------------
+# before the calculator: runner result -> execute_single -> AsyncExecutor -> Sampler -> Sample -> driver -> store
+# ---------------------------------------------------------------------------------------------
+C06_OP = "c06-sim-op"
+# values a runner may legally report as its own throughput: exact zero of both kinds (an idle polling interval), negative zero,
+# the smallest and a huge double, a huge int, negative, ordinary ints and floats
+TPUT_EDGE = [("int", 0), ("float", 0.0), ("float", -0.0), ("float", 5e-324), ("float", 1e-300), ("float", 1e300), ("int", 2 ** 70),
+             ("float", -2.5), ("int", 8000), ("float", 12.5), ("float", 0.001), ("int", 3), ("float", 123456.789), ("int", 1)]
+
+
+def gen_tput_value(rng):
+    kind, v = rng.choice(TPUT_EDGE) if rng.random() < 0.85 else ("float", rng.random() * 10 ** rng.randrange(-3, 6))
+    if rng.random() < 0.35:
+        kind, v = rng.choice(TPUT_EDGE[:3])  # idle polls are common for polling runners
+    return {"kind": kind, "q": fs(v)}
+
+
+def tput_py(spec):
+    f = Fraction(spec["q"])
+    if spec["kind"] == "int":
+        return int(f)
+    x = float(f)
+    if Fraction(x) != f:
+        raise HarnessError("supplied throughput is not a double")
+    return x
+
+
+def gen_exec_cases(rng):
+    """1-2 tasks run by real AsyncExecutors on a virtual clock; the runner's return values are scripted per call"""
+    ntasks = rng.choice([1, 1, 2])
+    tasks = []
+    for k in range(ntasks):
+        mode = rng.choice(["supplied", "supplied", "supplied", "computed", "mixed"])
+        unit = rng.choice(["docs", "ops", "byte", None])
+        loop = rng.choice(["iterations", "iterations", "runner-completes"])
+        # a runner that supplies throughput / decides completion itself must be called by one client only (driver.py)
+        nclients = 1 if loop == "runner-completes" else rng.choice([1, 1, 2, 3])
+        clients = []
+        for c in range(nclients):
+            n = rng.choice([1, 2, 3, 5, 8, 12])
+            warm = rng.choice([0, 0, 1, 2]) if loop == "iterations" else 0
+            calls = []
+            for i in range(n + warm):
+                service = Fraction(rng.choice([1, 2, 4, 8, 16, 24, 40]), 16)
+                if i == 0:
+                    service += Fraction(c + 1, 4096)  # keeps the time stamps of different clients distinct
+                r = rng.random()
+                if mode == "supplied" or (mode == "mixed" and r < 0.5):
+                    res = {"k": "dict", "w": rng.choice([None, 0, 1, 100, 5000]), "unit": unit, "tput": gen_tput_value(rng)}
+                else:
+                    kind = rng.choice(["dict-absent", "dict-absent", "dict-none", "pair", "other"])
+                    if kind == "pair":
+                        res = {"k": "pair", "w": rng.choice([0, 1, 100, 5000]), "unit": unit or "ops"}
+                    elif kind == "other":
+                        res = {"k": "other"}
+                    else:
+                        res = {"k": "dict", "w": rng.choice([None, 0, 1, 100, 5000]), "unit": unit, "tput": "absent" if kind == "dict-absent" else None}
+                calls.append({"service": fs(service), "result": res})
+            clients.append({"worker": rng.randrange(2), "n": n, "warm": warm, "calls": calls})
+        tasks.append({"k": k, "mode": mode, "loop": loop, "clients": clients})
+    base = {"exact": True, "copies": False, "ntasks": ntasks, "downsample": rng.choice([1, 1, 2]),
+            "t0": fs(Fraction(rng.randrange(0, 4000), 4)), "epoch": fs(Fraction(1470838595) + Fraction(rng.randrange(0, 64), 8)), "tasks": tasks}
+    for placement in ("end-only", "every-shipment", "random"):
+        yield dict(base, cut=placement, seed=rng.randrange(1 << 30))
+
+
+def gen_exec(ctx):
+    n = 0
+    while n < ctx.budget:
+        for case in gen_exec_cases(ctx.rng):
+            if n >= ctx.budget:
+                break
+            n += 1
+            yield case
+
+
+def _result_py(res):
+    k = res["k"]
+    if k == "pair":
+        return (res["w"], res["unit"])
+    if k == "other":
+        return None
+    d = {}
+    if res["w"] is not None:
+        d["weight"] = res["w"]
+    if res["unit"] is not None:
+        d["unit"] = res["unit"]
+    if res["tput"] == "absent":
+        pass
+    elif res["tput"] is None:
+        d["throughput"] = None
+    else:
+        d["throughput"] = tput_py(res["tput"])
+    return d
+
+
+def _result_model(res):
+    if res["k"] != "dict":
+        return res
+    t = res["tput"]
+    return {"k": "dict", "w": res["w"], "unit": res["unit"], "tput": t if t in ("absent", None) else t["q"]}
+
+
+def _result_oracle(res):
+    """what the documentation of runners says reaches the sample: (ops, unit, supplied throughput or None)"""
+    if res["k"] == "pair":
+        return res["w"], res["unit"], None
+    if res["k"] == "other":
+        return 1, "ops", None
+    t = res["tput"]
+    return (1 if res["w"] is None else res["w"]), ("ops" if res["unit"] is None else res["unit"]), (None if t in ("absent", None) else t["q"])
+
+
+def run_exec_case(ctx, case):
+    import asyncio
+    import random as _random
+    import threading
+
+    from esrally import track
+    from esrally.client import context
+    from esrally.driver import driver, runner
+    from harness import sim_vloop
+
+    class SimClient(context.RequestContextHolder):
+        pass
+
+    clock = sim_vloop.VClock(float(Fraction(case["t0"])), float(Fraction(case["epoch"])))
+    script = {(t["k"], ci): cl["calls"] for t in case["tasks"] for ci, cl in enumerate(t["clients"])}
+    progress = {}
+
+    class Source:
+        infinite = True
+
+        def __init__(self, k, c=None):
+            self.k, self.c, self.i = k, c, 0
+
+        def partition(self, partition_index, total_partitions):
+            return Source(self.k, partition_index)
+
+        def params(self):
+            i = self.i
+            if i >= len(script[(self.k, self.c)]):
+                raise StopIteration()
+            self.i += 1
+            return {"k": self.k, "c": self.c, "i": i}
+
+    class SimRunner:
+        completes = False
+
+        async def __aenter__(self):
+            return self
+
+        async def __aexit__(self, *a):
+            return False
+
+        async def __call__(self, es, params):
+            calls = script[(params["k"], params["c"])]
+            q = calls[params["i"]]
+            progress[(params["k"], params["c"])] = params["i"] + 1
+            self._last = (params["k"], params["c"])
+            service = float(Fraction(q["service"]))
+            es.on_request_start()
+            if service > 0:
+                await asyncio.sleep(service)
+            es.on_request_end()
+            return _result_py(q["result"])
+
+        def __repr__(self):
+            return "c06-sim-runner"
+
+    class PollingRunner(SimRunner):
+        """like wait-for-transform: the runner itself says when it is done"""
+        completes = True
+
+        @property
+        def completed(self):
+            kc = getattr(self, "_last", None)
+            return kc is not None and progress.get(kc, 0) >= len(script[kc])
+
+        @property
+        def percent_completed(self):
+            kc = getattr(self, "_last", None)
+            return None if kc is None else progress.get(kc, 0) / len(script[kc])
+
+    samplers = {}
+    executors = []
+    registered = []
+    tasks_by_k = {}
+    try:
+        for t in case["tasks"]:
+            op_type = f"{C06_OP}-{t['k']}"
+            polling = t["loop"] == "runner-completes"
+            runner.register_runner(op_type, PollingRunner() if polling else SimRunner(), async_runner=True)
+            registered.append(op_type)
+            ncl = len(t["clients"])
+            # iteration counts are per task in Rally; clients with fewer scripted calls stop when their parameter source is exhausted
+            task = track.Task(f"task-{t['k']}", track.Operation(f"op-{t['k']}", op_type, params={}),
+                              warmup_iterations=None if polling else max(cl["warm"] for cl in t["clients"]),
+                              iterations=None if polling else max(cl["n"] for cl in t["clients"]),
+                              clients=ncl)
+            tasks_by_k[t["k"]] = task
+            for ci, cl in enumerate(t["clients"]):
+                w = cl["worker"]
+                if w not in samplers:
+                    samplers[w] = driver.Sampler(start_timestamp=clock.perf_counter())
+                alloc = driver.TaskAllocation(task=task, client_index_in_task=ci, global_client_index=len(executors), total_clients=ncl)
+                handle = driver.schedule_for(alloc, Source(t["k"]))
+                executors.append(driver.AsyncExecutor(client_id=len(executors), task=task, schedule=handle, es={"default": SimClient()},
+                                                      sampler=samplers[w], cancel=threading.Event(), complete=threading.Event(), on_error="continue"))
+                executors[-1]._c06 = (t["k"], ci)
+
+        async def main():
+            await asyncio.gather(*[ex() for ex in executors])
+
+        _, exc = sim_vloop.run_virtual(clock, main)
+        if exc is not None:
+            raise HarnessError(f"executor raised {type(exc).__name__}: {exc}")
+    finally:
+        for op_type in registered:
+            runner.remove_runner(op_type)
+    kc_of_client = {ex.client_id: ex._c06 for ex in executors}
+    # what each worker drains (completion order), tied back to the scripted call: the i-th sample of a client is its i-th call
+    seen = {}
+    ships = []
+    rng = _random.Random(case["seed"])
+    per_worker = []
+    for w, sampler in sorted(samplers.items()):
+        triples = []
+        for o in sampler.samples:
+            k, ci = kc_of_client[o.client_id]
+            i = seen.get(o.client_id, 0)
+            seen[o.client_id] = i + 1
+            res = script[(k, ci)][i]["result"]
+            ms = {"task": k, "abs": fs(o.absolute_time), "rel": fs(o.relative_time), "period": fs(o.time_period),
+                  "normal": o.sample_type.name == "Normal", "result": _result_model(res)}
+            ops, unit, tp = _result_oracle(res)
+            osmp = {"task": k, "abs": ms["abs"], "rel": ms["rel"], "period": ms["period"], "normal": ms["normal"], "ops": ops, "unit": unit, "tput": tp}
+            triples.append((o, ms, osmp, o.client_id, o.percent_completed))
+        chunks = []
+        i = 0
+        while i < len(triples):
+            n = rng.choice([1, 1, 2, 3, 5, 8])
+            chunks.append(triples[i:i + n])
+            i += n
+        per_worker.append(chunks)
+    for (k, ci), calls in script.items():
+        cid = [c for c, kc in kc_of_client.items() if kc == (k, ci)][0]
+        if seen.get(cid, 0) != len(calls):
+            orc_note = f"client {cid} of task {k}: {len(calls)} runner calls scripted, {seen.get(cid, 0)} samples"
+            raise HarnessError("executor did not produce one sample per scripted call: " + orc_note)
+    while any(per_worker):
+        w = rng.choice([i for i, ch in enumerate(per_worker) if ch])
+        ships.append(per_worker[w].pop(0))
+    events = []
+    p = rng.choice([0.1, 0.3, 0.6])
+    for sh in ships:
+        events.append(sh)
+        if case["cut"] == "every-shipment" or (case["cut"] == "random" and rng.random() < p):
+            events.append("pp")
+    events.append("pp")
+    vals = sorted({(t["mode"], t["loop"]) for t in case["tasks"]})
+    zero = any(c["result"].get("tput") not in ("absent", None) and c["result"]["k"] == "dict" and Fraction(c["result"]["tput"]["q"]) == 0
+               for t in case["tasks"] for cl in t["clients"] for c in cl["calls"])
+    ctx.count("class:supplied-zero" if zero else "class:no-supplied-zero")
+    case = dict(case, sig_extra=[vals, zero])
+    _drive(ctx, case, events)
 
 
 def gen_sort(ctx):
@@ -814,4 +1123,5 @@ STREAMS = [
     Stream("driver_boundary", gen_driver_boundary, run_driver_case, quick=1200, thorough=12000, shards=4),
     Stream("driver_dyadic", gen_driver_dyadic, run_driver_case, quick=6000, thorough=120000, shards=16),
     Stream("driver_floats", gen_driver_floats, run_driver_case, quick=1500, thorough=30000, shards=8),
+    Stream("executor_to_store", gen_exec, run_exec_case, quick=2400, thorough=40000, shards=16),
 ]
